@@ -134,6 +134,7 @@ func vxIteInt(c bool, a, b int) int {
 	}
 	return b
 }
+func vxRaceFree() bool                { return true }
 func vxNative() bool                  { return true }
 func vxIsSymbolic(x interface{}) bool { return false }
 func vxPanics(f func()) (p bool) {
